@@ -449,6 +449,39 @@ func c16(c *Ctx) {
 			}
 			segs = [][]byte{Frame808(0x1210, v2019, bcd, serial, Body1210(d, []byte("ID"), 0, -1, []AttItem{{name, uint32(size)}}))}
 		}
+		// a second file announced in the SAME 0x1210 and received completely, chunk by chunk on the same offsets
+		// (a shared packet grid): what one file has received must not count for the other
+		var decoy []byte
+		if i%7 == 5 && !over && size >= 2 {
+			decoy = []byte(fmt.Sprintf("d%d.bin", rng.Intn(100)))
+			if string(decoy) == string(name) {
+				decoy = append(decoy, 'x')
+			}
+			dcontent := make([]byte, size)
+			rng.Read(dcontent)
+			segs = [][]byte{Frame808(0x1210, v2019, bcd, serial, Body1210(d, []byte("ID"), 0, -1, []AttItem{{decoy, uint32(size)}, {name, uint32(size)}}))}
+			cut := []uint64{0, size / 2, size}
+			if rng.Intn(2) == 0 && len(ch) > 0 { // or on exactly the grid of the chunks the other file is MISSING
+				cut = []uint64{0}
+				for _, g := range refGaps(size, ch) {
+					if uint64(g.O) > cut[len(cut)-1] {
+						cut = append(cut, uint64(g.O))
+					}
+					if e := uint64(g.O) + uint64(g.L); e > cut[len(cut)-1] {
+						cut = append(cut, e)
+					}
+				}
+				if cut[len(cut)-1] < size {
+					cut = append(cut, size)
+				}
+			}
+			for k := 0; k+1 < len(cut); k++ {
+				if cut[k+1] > cut[k] {
+					segs = append(segs, Chunk(d, decoy, uint32(cut[k]), dcontent[cut[k]:cut[k+1]]))
+				}
+			}
+			c.Count("socket:two-files-one-1210")
+		}
 		for _, s := range ch {
 			segs = append(segs, Chunk(d, name, s.O, content[s.O:s.O+s.L]))
 		}
@@ -533,7 +566,17 @@ func c16(c *Ctx) {
 		}
 		// and the file content is the original
 		last := res.Events[len(res.Events)-1]
-		if len(last.Files) != 1 || string(last.Files[0].Body) != string(content) {
+		okContent := false
+		for _, f := range last.Files {
+			if string(f.Name) == string(name) && string(f.Body) == string(content) {
+				okContent = true
+			}
+		}
+		wantFiles := 1
+		if decoy != nil {
+			wantFiles = 2
+		}
+		if len(last.Files) != wantFiles || !okContent {
 			bad("content", fmt.Sprintf("%d files", len(last.Files)), "the reassembled file equals the original after the resend")
 		}
 	}
